@@ -39,6 +39,8 @@ pub struct Config {
     pub structural: bool,
     /// R-freefn: trait impls on foreign types emitted as free functions: impl selector => fn name
     pub free_fn_impls: BTreeMap<String, String>,
+    /// R-fornext: `for PAT in X.m(..) BODY` with m listed here (m returns an iterator modelled by its `next`)
+    pub for_next: Vec<String>,
 }
 
 impl Config {
@@ -53,6 +55,9 @@ impl Config {
             for (k, v) in m {
                 c.ident_map.insert(k.clone(), v.as_str().unwrap().to_string());
             }
+        }
+        if let Some(a) = u["for_next"].as_array() {
+            c.for_next = a.iter().map(|v| v.as_str().unwrap().to_string()).collect();
         }
         if let Some(a) = u["keep_traits"].as_array() {
             c.keep_traits = a.iter().map(|v| v.as_str().unwrap().to_string()).collect();
@@ -428,6 +433,18 @@ impl<'a> Rewriter<'a> {
             }
             "write" => self.expand_write(mac, false),
             "writeln" => self.expand_write(mac, true),
+            "vec" => {
+                // R-vec: `vec![a, b]` => `{ let mut __v = Vec::new(); __v.push(a); __v.push(b); __v }`
+                // (the list form only; the elements are then rewritten as ordinary expressions)
+                let args: syn::punctuated::Punctuated<Expr, syn::Token![,]> =
+                    mac.parse_body_with(syn::punctuated::Punctuated::parse_terminated).ok()?;
+                if args.is_empty() {
+                    return None;
+                }
+                let items: Vec<Expr> = args.into_iter().collect();
+                fire(self.fired, "R-vec");
+                Some(parse_quote!({ let mut __v = Vec::new(); #( __v.push(#items); )* __v }))
+            }
             "panic" | "todo" | "unimplemented" => {
                 fire(self.fired, "R-panic");
                 Some(parse_quote!(vx_panic()))
@@ -741,6 +758,25 @@ impl<'a> VisitMut for Rewriter<'a> {
                 *e = n;
             }
         }
+        // R-fornext: `for PAT in X.m(..) BODY` (m in unit.json for_next) =>
+        //   `{ let mut __it = X.m(..); while let Some(PAT) = __it.next() BODY }`
+        {
+            let mut rep: Option<Expr> = None;
+            if let Expr::ForLoop(fl) = e {
+                if let Expr::MethodCall(mc) = &*fl.expr {
+                    if self.cfg.for_next.iter().any(|m| mc.method == m) && fl.label.is_none() {
+                        let it = &fl.expr;
+                        let pat = &fl.pat;
+                        let body = &fl.body;
+                        rep = Some(parse_quote!({ let mut __it = #it; while let Some(#pat) = __it.next() #body }));
+                    }
+                }
+            }
+            if let Some(n) = rep {
+                fire(self.fired, "R-fornext");
+                *e = n;
+            }
+        }
         // R-forby: `for PAT in E.by_ref() BODY` => `while let Some(PAT) = E.next() BODY`
         {
             let mut rep: Option<Expr> = None;
@@ -792,6 +828,27 @@ impl<'a> VisitMut for Rewriter<'a> {
             if let Expr::ForLoop(fl) = e {
                 if let (Expr::MethodCall(en), Pat::Tuple(pt)) = (&*fl.expr, &*fl.pat) {
                     if en.method == "enumerate" && en.args.is_empty() && pt.elems.len() == 2 && fl.label.is_none() {
+                        let is_slice_iter = matches!(&*en.receiver, Expr::MethodCall(it) if it.method == "iter" && it.args.is_empty());
+                        if !is_slice_iter {
+                            // R-enumerate (iterator form): `for (I, X) in E.enumerate() BODY` =>
+                            //   { let mut __it = E; let mut __i: usize = 0;
+                            //     while let Some(__x) = __it.next() { let I = __i; let X = __x; __i += 1; BODY } }
+                            // (the counter's `+= 1` keeps its overflow obligation)
+                            let it = &en.receiver;
+                            let pi = &pt.elems[0];
+                            let px = &pt.elems[1];
+                            let stmts = &fl.body.stmts;
+                            rep = Some(parse_quote!({
+                                let mut __it = #it;
+                                let mut __i: usize = 0;
+                                while let Some(__x) = __it.next() {
+                                    let #pi = __i;
+                                    let #px = __x;
+                                    __i += 1;
+                                    #(#stmts)*
+                                }
+                            }));
+                        }
                         if let Expr::MethodCall(it) = &*en.receiver {
                             if it.method == "iter" && it.args.is_empty() {
                                 let v = &it.receiver;
